@@ -26,7 +26,8 @@ ndarray: data set, line, input polarity (false = 0 = rising), output polarity.
 Totalised spots and the guard under which the real code does not raise (`RawEntry.ok`, `slashOK`):
 entries with 0 or ≥ 3 value lists make `IOPath(*args)` raise `TypeError`; a name with two `/` makes the tuple
 unpacking of `split('/')` raise; value lists have 0 or 3 fields by the grammar. Unknown pins / unknown cells in
-INTERCONNECTs raise in the code and are outside the tables' domain. -/
+INTERCONNECTs raise in the code and are outside the tables' domain (the concrete look-ups with their raise / warn
+outcomes: Model/SdfCirc.lean).  A file without top-level block: `interconnects = none` (`TypeError`). -/
 namespace KV.Sdf
 
 abbrev Val := Int
@@ -200,8 +201,13 @@ def listMax : List Int → Int
   | [] => 0
   | x :: xs => xs.foldl max x
 
-/-- `max(max(delvals)) == 0` -/
-def icSkip (r f : Triple) : Bool := listMax (lexMax r f) == 0
+/-- the skip test of the tree BEFORE repair D34: `max(max(delvals)) == 0` — the largest element of the
+lexicographically larger value list.  Not "all zero" when values are negative (`(0:0:0) (-1:5:5)` is skipped).
+Kept for the demonstration theorem `C14.icSkipOld_drops_nonzero` only; no model function uses it. -/
+def icSkipOld (r f : Triple) : Bool := listMax (lexMax r f) == 0
+
+/-- `not any(any(d) for d in delvals)` (repaired code, D34): skip only when every value is zero -/
+def icSkip (r f : Triple) : Bool := !(r.any (· != 0) || f.any (· != 0))
 
 def icWrite (icLine : IcTable) (e : Entry) : Option W :=
   let r := norm e.r
@@ -211,13 +217,14 @@ def icWrite (icLine : IcTable) (e : Entry) : Option W :=
   let n2 := splitSlash e.b
   (icLine (stripBackslash n1.1) n1.2 (stripBackslash n2.1) n2.2).map fun l => ⟨l, [false, true], r, f⟩
 
-def icEntries (df : DelayFile) : List Entry := df.interconnects.getD []
+/-- `self._interconnects`: `none` when the file has no block without INSTANCE name (`cells.get(None, None)`) -/
+def icEntries (df : DelayFile) : Option (List Entry) := df.interconnects
 
-def icWrites (icLine : IcTable) (df : DelayFile) : List W := (icEntries df).filterMap (icWrite icLine)
+def icWritesOf (icLine : IcTable) (es : List Entry) : List W := es.filterMap (icWrite icLine)
 
-/-- guard `df.interconnects.isSome`: without a block named `None` the real code raises `TypeError`
-(`for .. in None`) -/
-def interconnects (icLine : IcTable) (df : DelayFile) : Arr := applyAll (icWrites icLine df)
+/-- `none`: without a block named `None` the real code raises `TypeError` (`for .. in None`) — not totalised -/
+def interconnects (icLine : IcTable) (df : DelayFile) : Option Arr :=
+  (icEntries df).map fun es => applyAll (icWritesOf icLine es)
 
 /-- all raw (block name, entry) pairs of a file in file order -/
 def flatRaw (cells : List RawCell) : List (Option String × Entry) :=
